@@ -215,7 +215,44 @@ func (c *Ctx) LookupField(pkgRel, typ, field string) *types.Var {
 			return st.Field(i)
 		}
 	}
+	// an unexported field may simply have been renamed: fall back to the unique unexported field of the type the
+	// anchor is known to have (the role of these fields is determined by their type)
+	if hint, ok := fieldTypeHints[pkgRel+"."+typ+"."+field]; ok {
+		var found *types.Var
+		for i := 0; i < st.NumFields(); i++ {
+			f := st.Field(i)
+			if f.Exported() {
+				continue
+			}
+			if types.TypeString(f.Type(), func(p *types.Package) string { return p.Name() }) == hint {
+				if found != nil {
+					return nil // ambiguous
+				}
+				found = f
+			}
+		}
+		return found
+	}
 	return nil
+}
+
+// fieldTypeHints: type of the unexported fields the rules are anchored in (used only when the name is gone).
+var fieldTypeHints = map[string]string{
+	"transport.Telnet.initialBuf":              "[]byte",
+	"channel.Channel.readLoopExited":           "bool",
+	"channel.Channel.done":                     "chan struct{}",
+	"util.Queue.queue":                         "[][]byte",
+	"util.Queue.depth":                         "int",
+	"util.Queue.depthChan":                     "chan int",
+	"util.Queue.lock":                          "*sync.RWMutex",
+	"driver/network.PrivilegeLevel.patternRe":  "*regexp.Regexp",
+	"driver/netconf.Driver.subscriptions":      "map[int][][]byte",
+	"driver/netconf.Driver.sessionID":          "uint64",
+	"driver/netconf.Driver.serverCapabilities": "[]string",
+	"driver/netconf.Driver.messages":           "map[int][]byte",
+	"driver/netconf.Driver.messageID":          "int",
+	"driver/netconf.Driver.errs":               "chan error",
+	"driver/generic.callbackResult.i":          "int",
 }
 
 // LookupVar resolves a package-level variable.
